@@ -47,6 +47,11 @@ func (vfs *MemFS) searchNode(path string, slMode slMode) (
 	slCount := 0
 	slResolved := false
 
+	slMax := slCountMax
+	if slMode == slmLinks {
+		slMax = slCountMaxEval
+	}
+
 	absPath, _ := vfs.Abs(path)
 	pi = avfs.NewPathIterator[*MemFS](vfs, absPath)
 
@@ -116,7 +121,7 @@ func (vfs *MemFS) searchNode(path string, slMode slMode) (
 		case *symlinkNode:
 			// Symlinks mode is always 0o777, no need to check permissions.
 			slCount++
-			if slCount > slCountMax {
+			if slCount > slMax {
 				err = vfs.err.TooManySymlinks
 
 				return
